@@ -835,6 +835,58 @@ func describeL2(c *l2Case) map[string]any {
 
 var l2Props = []string{"C01", "C02", "C03", "C04", "C05", "C07", "C08"}
 
+// firstUseOrder is run before anything else has touched the process-wide type information
+// cache: for every zoo struct that embeds another zoo struct, a statement over the embedded
+// type is prepared and run FIRST (or the embedding one first, by coin flip), then the other,
+// then the first again, on the old Statement and on a fresh one.  What is sent must not
+// depend on which of the two types the process met first (C16).
+func firstUseOrder(rep *Report, r *rng.R) int {
+	n := 0
+	for _, outer := range zoo.Entries {
+		if outer.Bad || outer.Kind != "struct" || len(outer.Tags) == 0 {
+			continue
+		}
+		for i := 0; i < outer.Type.NumField(); i++ {
+			f := outer.Type.Field(i)
+			ft := f.Type
+			if ft.Kind() == reflect.Pointer {
+				ft = ft.Elem()
+			}
+			if !f.Anonymous || f.Tag.Get("db") != "" || ft.Kind() != reflect.Struct {
+				continue
+			}
+			inner, ok := zoo.ByName(ft.Name())
+			if !ok || inner.Bad || inner.Type != ft || len(inner.Tags) == 0 {
+				continue
+			}
+			mk := func(e zoo.Entry) *l2Case {
+				fl := &desc.Filler{R: r.Fork(), Keys: []string{"k"}}
+				fl.N = r.Intn(1000) * 100
+				q := "INSERT INTO t (*) VALUES ($" + e.Name + ".*)"
+				if r.Chance(1, 2) {
+					q = "SELECT &" + e.Name + ".* FROM t WHERE a = $" + e.Name + "." + e.Tags[r.Intn(len(e.Tags))]
+				}
+				v := fl.Fill(e.Type, 0)
+				return &l2Case{Q: q, Samples: []any{reflect.Zero(e.Type).Interface()}, Args: []any{v.Interface()}}
+			}
+			a, b := mk(inner), mk(outer)
+			if r.Chance(1, 3) {
+				a, b = b, a
+			}
+			first := runL2Case(a, a.Samples, a.Args)
+			runL2Case(b, b.Samples, b.Args)
+			again := runL2Case(a, a.Samples, a.Args)
+			n++
+			if first.panic == "" && again.panic == "" && first.key() != again.key() {
+				rep.addHolds("C16", Finding{Case: describeL2(a), Kind: "holds",
+					Detail: fmt.Sprintf("the same statement and arguments gave a different result after a statement over %s had been prepared for the first time in the process: first %v, later %v", describeL2(b)["samples"], first.obs(), again.obs()),
+					Holds: map[string]bool{"C16": false}, Impl: again.obs()})
+			}
+		}
+	}
+	return n
+}
+
 type earlyCase struct {
 	c   *l2Case
 	key string
@@ -878,6 +930,7 @@ func runL2(args []string) {
 	hyp := map[string]int{}
 	parseRejected := 0
 
+	hyp["first-use-order-pairs"] = firstUseOrder(rep, r.Fork())
 	for i := 0; i < *n; i++ {
 		if hangCount >= maxHangs {
 			rep.Notes = append(rep.Notes, fmt.Sprintf("stopped after %d of %d cases: %d calls hung", i, *n, hangCount))
